@@ -40,11 +40,10 @@ func TestC08_P_Differential(t *testing.T) {
 	ev := newEvid(t, c08DiffRule)
 	maxN := scale(300, 3000)
 	rapid.Check(t, func(t *rapid.T) {
-		names, classes := genNames(t, nameOpts{Max: maxN})
+		names, classes, fanout := genNamesFanout(t, nameOpts{Max: maxN})
 		if len(names) == 0 {
 			names = []string{rapid.SampledFrom(specialNames).Draw(t, "single")}
 		}
-		fanout := genFanout(t)
 		salt := rapid.IntRange(0, 50).Draw(t, "salt")
 		es := make([]entrySpec, len(names))
 		for i, n := range names {
@@ -190,18 +189,28 @@ func TestC08_P_ReferenceHistories(t *testing.T) {
 		sort.Strings(nonMembers)
 		nonMembers = append(nonMembers, "", "zz")
 		ls := st.LinkSystem()
+		withPast := rapid.IntRange(0, 2).Draw(t, "faultyPast") == 0
 		for _, reifier := range []string{"unixfs", "unixfs-preload"} {
 			var cerr error
+			hist := ""
 			must(t, "read reference HAMT via "+reifier, func() {
 				dir, err := loadReified(ls, root, reifier)
 				if err != nil {
 					cerr = fmt.Errorf("reify: %w", err)
 					return
 				}
+				if tr, terr := st.ShardTree(root); terr == nil && withPast {
+					var mnames []string
+					for n := range model {
+						mnames = append(mnames, n)
+					}
+					sort.Strings(mnames)
+					hist = "after " + faultyPast(t, st, dir, tr, mnames)
+				}
 				cerr = checkDirIsMapOpt(dir, model, nonMembers, len(model)%2 == 0)
 			})
 			if cerr != nil {
-				t.Fatalf("C08: reference-written HAMT (fanout %d, %d entries, history %v) read via %s: %v", fanout, len(model), keys(classes), reifier, cerr)
+				t.Fatalf("C08: reference-written HAMT (fanout %d, %d entries, history %v) read via %s %s: %v", fanout, len(model), keys(classes), reifier, hist, cerr)
 			}
 		}
 		depth := 1
